@@ -1,0 +1,11 @@
+//go:build verif
+
+package validator
+
+// VerifCheckedMul exposes checkedNonNegativeMultiply to the verification harness (build tag
+// `verif` only; see /verif, property C14).
+func VerifCheckedMul(a, b int) int { return checkedNonNegativeMultiply(a, b) }
+
+// VerifCheckedAdd exposes checkedNonNegativeAdd to the verification harness (build tag `verif`
+// only; see /verif, property C14).
+func VerifCheckedAdd(a, b int) int { return checkedNonNegativeAdd(a, b) }
